@@ -7,7 +7,7 @@
 //         nested    two tasks suspend; one foreign thread resumes both in reverse order
 //         arena1    arena with one slot (owner recall): the only thread suspends at the outermost level of execute()
 //         twice     the same task suspends twice in a row
-// -p P=2
+// -p P=2  -p asleep=1 (workers asleep at the start)  -p late=1 (the resumer waits until every other thread sleeps before it calls resume)
 #include <oneapi/tbb/task_group.h>
 #include <oneapi/tbb/task_arena.h>
 #include <oneapi/tbb/task.h>
@@ -24,10 +24,11 @@ static void scenario() {
     tbb::task_arena ar(streq(k, "arena1") ? 1 : P); int warm = 0;
     ar.execute([&] { tbb::task_group tg; tg.run([&] { warm++; }); tg.run([&] { warm++; }); tg.wait(); });
     if (vf_param_int("asleep", 0)) settle();
+    int late = (int)vf_param_int("late", 0);
     vf_liveness(1);
     if (streq(k, "foreign") || streq(k, "arena1") || streq(k, "twice")) {
         int rounds = streq(k, "twice") ? 2 : 1;
-        int r = spawn([&] { (void)tbb::this_task_arena::max_concurrency(); vf_gate_wait(); for (int i = 0; i < rounds; i++) { tbb::task::suspend_point p = take(i); resumed[i] = 1; tbb::task::resume(p); } });
+        int r = spawn([&] { (void)tbb::this_task_arena::max_concurrency(); vf_gate_wait(); for (int i = 0; i < rounds; i++) { tbb::task::suspend_point p = take(i); if (late) settle(); /* late resume: every other thread has gone to sleep (or parked) by now */ resumed[i] = 1; tbb::task::resume(p); } });
         while (vf_gate_count() < 1) vf_yield();
         vf_window(1); vf_gate_open();
         ar.execute([&] { tbb::task_group tg;
@@ -45,7 +46,7 @@ static void scenario() {
             tg.run([&] { while (!ready.load(std::memory_order_acquire)) vf_yield(); resumed[0] = 1; tbb::task::resume(sp[0]); other++; });
             tg.wait(); if (cont[0] != 1 || other != 1) vf_fail("wait returned early: cont=%d other=%d", cont[0], other); }); vf_window(0); }
     else if (streq(k, "nested")) {
-        int r = spawn([&] { (void)tbb::this_task_arena::max_concurrency(); vf_gate_wait(); tbb::task::suspend_point p1 = take(1), p0 = take(0); resumed[1] = 1; tbb::task::resume(p1); resumed[0] = 1; tbb::task::resume(p0); });
+        int r = spawn([&] { (void)tbb::this_task_arena::max_concurrency(); vf_gate_wait(); tbb::task::suspend_point p1 = take(1), p0 = take(0); if (late) settle(); resumed[1] = 1; tbb::task::resume(p1); resumed[0] = 1; tbb::task::resume(p0); });
         while (vf_gate_count() < 1) vf_yield();
         vf_window(1); vf_gate_open();
         ar.execute([&] { tbb::task_group tg;
